@@ -426,7 +426,12 @@ func (g *pgen) stmt(c stmtCtx) {
 		}
 		g.emit("bondgo.IOWrite(%s, %s)", g.outs[rapid.IntRange(0, len(g.outs)-1).Draw(g.t, "out")], g.expr(2))
 	case k < 74: // if / if-else
-		g.emit("if %s {", g.cond())
+		if g.pct(20, "ifinit") {
+			// if with an init statement (a plain assignment: no new name, no scoping question)
+			g.emit("if %s = %s; %s {", g.pickVal().name, g.expr(2), g.cond())
+		} else {
+			g.emit("if %s {", g.cond())
+		}
 		rc := g.pushCtx()
 		g.block(rapid.IntRange(1, 3).Draw(g.t, "nthen"), stmtCtx{c.inFunc, c.depth + 1}, nil)
 		if g.pct(45, "else") {
